@@ -1301,9 +1301,10 @@ Section Cache.
   (* every cached object is the class's own scan result *)
   Definition clean (st : cache) : Prop := forall k v, cache_get st k = Some v -> v = scan k.
 
-  Lemma fetch_clean st k : clean st -> fst (fetch scan st k) = scan k /\ clean (snd (fetch scan st k)).
+  Lemma fetch_clean st k : clean st -> fst (fetch CACHED scan st k) = scan k /\ clean (snd (fetch CACHED scan st k)).
   Proof.
-    intros Hc. unfold fetch. destruct (cache_get st k) as [v|] eqn:E; cbn [fst snd].
+    intros Hc. unfold fetch. destruct CACHED; [|split; [reflexivity | exact Hc]].
+    destruct (cache_get st k) as [v|] eqn:E; cbn [fst snd].
     - split; [now apply Hc | exact Hc].
     - split; [reflexivity|]. intros k' v' H.
       destruct (string_dec k' k) as [->|Hne].
@@ -1312,14 +1313,14 @@ Section Cache.
   Qed.
 
   Lemma acc_loop_clean mro : forall created st, clean st ->
-    option_map snd (fst (acc_loop ACC_PARTS true scan mro created st))
+    option_map snd (fst (acc_loop ACC_PARTS true CACHED scan mro created st))
       = acc_pure_gen (map scan mro) (option_map snd created)
-    /\ clean (snd (acc_loop ACC_PARTS true scan mro created st)).
+    /\ clean (snd (acc_loop ACC_PARTS true CACHED scan mro created st)).
   Proof.
     unfold acc_pure_gen.
     induction mro as [|k r IH]; intros created st Hc; [split; [reflexivity | exact Hc]|].
     cbn [acc_loop map acc_pure].
-    destruct (fetch_clean st k Hc) as [F1 F2]. destruct (fetch scan st k) as [v st1]. cbn [fst snd] in F1, F2.
+    destruct (fetch_clean st k Hc) as [F1 F2]. destruct (fetch CACHED scan st k) as [v st1]. cbn [fst snd] in F1, F2.
     subst v. destruct (scan k) as [d|].
     - destruct created as [[k0 c]|]; cbn [option_map snd].
       + exact (IH (Some (k0, merge ACC_PARTS c d)) st1 F2).
@@ -1332,7 +1333,7 @@ Section Cache.
   Proof.
     intros Hc. unfold get_doc_gen, get_doc. rewrite fix_alias_on.
     destruct (acc_loop_clean mro None st Hc) as [A B]. cbn [option_map] in A.
-    destruct (acc_loop ACC_PARTS true scan mro None st) as [[[k0 c]|] st']; cbn [fst snd option_map] in *;
+    destruct (acc_loop ACC_PARTS true CACHED scan mro None st) as [[[k0 c]|] st']; cbn [fst snd option_map] in *;
       (split; [unfold pure_result; rewrite <- A; reflexivity | exact B]).
   Qed.
 
@@ -1342,7 +1343,7 @@ Section Cache.
     unfold run_queries_gen.
     induction qs as [|q r IH]; intros st Hc; [reflexivity|].
     destruct (get_doc_clean q st Hc) as [Q1 Q2]. unfold get_doc_gen in Q1, Q2.
-    cbn [run_queries map]. destruct (get_doc ACC_PARTS FIX_ALIAS scan q st) as [d st'].
+    cbn [run_queries map]. destruct (get_doc ACC_PARTS FIX_ALIAS CACHED scan q st) as [d st'].
     cbn [fst snd] in Q1, Q2. rewrite Q1. f_equal. now apply IH.
   Qed.
 End Cache.
@@ -1361,3 +1362,71 @@ Proof.
   rewrite (run_queries_clean scan qs [] (clean_nil scan)).
   apply map_ext. intros q. symmetry. apply get_doc_pure.
 Qed.
+
+(* ----- what the argparse action is given (FieldWrapper.get_arg_options, regenerated if-chain) ----- *)
+Lemma bridge_token : TEMPORARY_TOKEN = PLACEHOLDER.
+Proof. reflexivity. Qed.
+
+(* the functions whose results are oracle inputs of the model are the ones the correspondence run calls *)
+Lemma bridge_oracles :
+  ORACLES = [("dp_parse", "dp.parse"); ("inspect_getsource", "inspect.getsource"); ("inspect_getdoc", "inspect.getdoc")].
+Proof. reflexivity. Qed.
+
+Lemma spec_help_nonempty explicit p s : spec_help explicit p = Some s -> str_nonempty s = true.
+Proof.
+  unfold spec_help.
+  set (l := (match explicit with Some h => h | None => "" end) :: [w_below p; w_above p; w_inline p; w_entry p]).
+  destruct (filter (fun s0 => negb (String.eqb s0 "")) l) as [|x r] eqn:E; [discriminate|].
+  intros H. injection H as <-.
+  assert (Hin : In x (filter (fun s0 => negb (String.eqb s0 "")) l)) by (rewrite E; now left).
+  apply filter_In in Hin as [_ Hx]. exact Hx.
+Qed.
+
+(* the action receives exactly the demanded help text; without one, nothing but the placeholder that the help
+   formatter erases (and only when there is a default to print) *)
+Theorem action_help_spec explicit d hd :
+  action_help_gen (help_gen explicit d) hd
+  = match spec_help explicit (parts_prov d) with
+    | Some s => Some s
+    | None => if hd then Some PLACEHOLDER else None
+    end.
+Proof.
+  rewrite help_precedence. unfold action_help_gen, ACTION_HELP_TABLE. cbn [action_help].
+  destruct (spec_help explicit (parts_prov d)) as [s|] eqn:E.
+  - now rewrite (spec_help_nonempty _ _ _ E).
+  - rewrite bridge_token. destruct hd; reflexivity.
+Qed.
+
+Theorem action_help_allowed explicit d hd :
+  spec_action_help (spec_help explicit (parts_prov d)) (action_help_gen (help_gen explicit d) hd) = true.
+Proof.
+  rewrite action_help_spec. destruct (spec_help explicit (parts_prov d)) as [s|]; simpl.
+  - apply String.eqb_refl.
+  - destruct hd; reflexivity.
+Qed.
+
+(* FieldWrapper.arg_options lays metadata['custom_args'] (field(help=..)) over the generated options *)
+Definition custom_ok (c : option string) : bool := match c with Some h => str_nonempty h | None => true end.
+
+Theorem shown_help_spec custom explicit d hd :
+  custom_ok custom = true ->
+  final_help_gen custom (action_help_gen (help_gen explicit d) hd)
+  = match spec_help (explicit_help custom explicit) (parts_prov d) with
+    | Some s => Some s
+    | None => if hd then Some PLACEHOLDER else None
+    end.
+Proof.
+  intros Hc. unfold final_help_gen, final_help, CUSTOM_OVERRIDES. destruct custom as [c|].
+  - simpl in Hc. unfold explicit_help, spec_help. cbn [filter]. unfold str_nonempty in Hc. now rewrite Hc.
+  - apply action_help_spec.
+Qed.
+
+(* an EMPTY help= given to field() still replaces the documentation *)
+Theorem shown_help_refuted :
+  exists custom explicit d hd,
+    final_help_gen custom (action_help_gen (help_gen explicit d) hd)
+    <> match spec_help (explicit_help custom explicit) (parts_prov d) with
+       | Some s => Some s
+       | None => if hd then Some PLACEHOLDER else None
+       end.
+Proof. exists (Some ""), None, (mkparts "" "" "docstring below" ""), true. vm_compute. discriminate. Qed.
